@@ -16,6 +16,8 @@ def well_formed(r):
             return False
         if op.get("ctor") in ("NewNxARPSpaMatchField", "NewNxARPTpaMatchField", "NewActsetOutputField"):
             return False
+        if op.get("op") == "set" and op.get("f") == "HWAddr" and len(op["val"]) != 6:
+            return False      # a port-mod whose address is not 6 bytes is encodable (cut / zero-filled) but is not the value that comes back
         if op.get("ctor") == "NewMatchFieldU64" and op["args"][0] in ("NXM_NX_TUN_ID",):     # registered, but without a decoder
             return False
     return True
